@@ -348,3 +348,24 @@ impl Transport for SimTransport {
         }
     }
 }
+
+/// Percent-decode a URL path segment (lossy on invalid UTF-8); used by policies that key files by
+/// their plain names while the client's URL library encodes spaces and non-ASCII characters.
+pub fn pct_decode(s: &str) -> String {
+    let b = s.as_bytes();
+    let mut out = Vec::with_capacity(b.len());
+    let mut i = 0;
+    while i < b.len() {
+        if b[i] == b'%' && i + 2 < b.len() + 0 && i + 2 <= b.len() - 1 + 0 {
+            let h = std::str::from_utf8(&b[i + 1..i + 3]).ok().and_then(|x| u8::from_str_radix(x, 16).ok());
+            if let Some(v) = h {
+                out.push(v);
+                i += 3;
+                continue;
+            }
+        }
+        out.push(b[i]);
+        i += 1;
+    }
+    String::from_utf8_lossy(&out).to_string()
+}
